@@ -222,7 +222,7 @@ def build_world():
              [('*', AP + '.g_nsent'), ('*', AP + '.g_last'), ('*', MECH + '.g_cancelled'), ('*', MECH + '.g_steps'), ('*', MECH + '.g_last_status')])
 
     # ---------------- mechanisms against the interface contract
-    w.add_class(ClassSpec('BusExternalAuthenticator', au.BusExternalAuthenticator, {'ok': BOOL, 'creds': OPAQUE, 'g_has_creds': BOOL, 'g_uid': INT}))
+    w.add_class(ClassSpec('BusExternalAuthenticator', au.BusExternalAuthenticator, {'ok': BOOL, 'creds': OPAQUE, 'g_has_creds': BOOL, 'g_uid': INT, 'g_pid': INT, 'g_gid': INT}))
 
     class _Hook:
         pass
@@ -258,7 +258,10 @@ class ModelsExt(Models06):
             # None, or the triple (pid, uid, gid) unpacked from SO_PEERCRED
             has = I.ctx.heap_read(obj, 'g_has_creds')
             uid = I.ctx.heap_read(obj, 'g_uid')
-            return VTuple([VInt(1), VInt(uid.term), VInt(1)]) if I.ctx.branch(has.term) else VNone()
+            # the process and group ids are whatever the kernel reports: a peer in another PID namespace has pid 0, root has gid 0
+            pid = I.ctx.heap_read(obj, 'g_pid')
+            gid = I.ctx.heap_read(obj, 'g_gid')
+            return VTuple([VInt(pid.term), VInt(uid.term), VInt(gid.term)]) if I.ctx.branch(has.term) else VNone()
         return None
 
 
@@ -380,7 +383,9 @@ def run_real(lines, script, split=None):
 
 
 ALPHABET = [b'AUTH SCRIPTED', b'AUTH SCRIPTED 6162', b'AUTH SCRIPTED zz', b'AUTH BOGUS', b'AUTH', b'DATA', b'DATA 6162', b'DATA \xff',
-            b'BEGIN', b'CANCEL', b'ERROR', b'NEGOTIATE_UNIX_FD', b'FOO', b'\xff\xfe x']
+            b'BEGIN', b'CANCEL', b'ERROR', b'NEGOTIATE_UNIX_FD', b'FOO', b'\xff\xfe x',
+            # command words with bytes outside ASCII among a command's letters: no command at all
+            b'BEGIN\x80', b'\xffBEGIN', b'AU\xc3\xa9TH SCRIPTED', b'CANC\xffEL', b'DA\x80TA 6162']
 SCRIPTS = [(), ('OK',), ('CONTINUE', 'OK'), ('CONTINUE', 'REJECT'), ('CONTINUE', 'CONTINUE', 'OK')]
 
 
@@ -495,8 +500,10 @@ def protocol_cases():
         import struct as _st, binascii, os
 
         class CredSocket:
+            pid = None
+
             def getsockopt(self, level, opt, size):
-                return _st.pack('3i', os.getpid(), os.getuid(), os.getgid())
+                return _st.pack('3i', os.getpid() if self.pid is None else self.pid, os.getuid(), os.getgid())
 
         class CredTransport(StringTransport):
             socket = CredSocket()
@@ -504,10 +511,13 @@ def protocol_cases():
         protocol._is_linux = True
         try:
             for how, cuts in (('one read', []), ('NUL alone, then the rest', [1]), ('NUL alone, then one line per read', [1, ext.index(b'\r\n') + 2]),
-                              ('one byte per read', list(range(1, len(ext))))):
+                              ('one byte per read', list(range(1, len(ext)))), ('one read, peer in another PID namespace: pid 0', [])):
                 p = bus.BusProtocol()
                 p.factory = F
                 t = CredTransport()
+                t.socket = CredSocket()
+                if 'pid 0' in how:
+                    t.socket.pid = 0
                 p.makeConnection(t)
                 prev = 0
                 try:
@@ -768,7 +778,7 @@ def bounded(tier, seed):
     if f:
         return n, f, {'case': 'cookie exchange through the bus'}
     depth = 4 if tier == 'thorough' else 3
-    small = [ALPHABET[i] for i in (0, 1, 2, 3, 5, 8, 9, 10, 12)]
+    small = [ALPHABET[i] for i in (0, 1, 2, 3, 5, 8, 9, 10, 12, 14, 17)]
     for L in range(1, depth + 1):
         for lines in itertools.product(small if L > 2 else ALPHABET, repeat=L):
             for script in (SCRIPTS if L <= 2 else SCRIPTS[:3]):
